@@ -39,6 +39,13 @@ type Case struct {
 	Ring    []gen.P   `json:"ring,omitempty"` // ring: unclosed vertex list; all spellings are checked
 	G       *gen.G    `json:"g,omitempty"`
 	Layout  string    `json:"layout,omitempty"` // box, ring, geom: memory layout of the measured value: shared, spare or plain
+	Noise   uint64    `json:"noise,omitempty"`  // seed of the noise calls interleaved between the checked calls (0: none)
+	N       int       `json:"n,omitempty"`      // long: number of vertices of the procedurally built line
+	Seed    uint64    `json:"seed,omitempty"`   // long: seed of the vertex sequence
+	Step    *gen.F    `json:"step,omitempty"`   // long: mean longitude step per vertex, degrees
+	Band    *gen.F    `json:"band,omitempty"`   // long: half-width of the latitude band, degrees
+	Reps    int       `json:"reps,omitempty"`   // long: repetitions of the measured calls inside one evaluation
+	Sweep   int       `json:"sweep,omitempty"`  // long: PointAtDistanceAlongLine requests per repetition
 }
 
 func fp(v float64) *gen.F { f := gen.F(v); return &f }
@@ -48,22 +55,23 @@ func pp(p orb.Point) *gen.P {
 }
 
 func checkCase(c Case) error {
+	nz := newNoiser(c.Noise)
 	switch c.Kind {
 	case "pair":
 		if c.P1 == nil || c.P2 == nil {
 			return fmt.Errorf("harness: malformed pair case")
 		}
-		return checkPair(c.P1.Pt(), c.P2.Pt())
+		return checkPair(c.P1.Pt(), c.P2.Pt(), nz)
 	case "dest":
 		if c.P1 == nil || c.Bearing == nil || c.Dist == nil {
 			return fmt.Errorf("harness: malformed dest case")
 		}
-		return checkDest(c.P1.Pt(), float64(*c.Bearing), float64(*c.Dist))
+		return checkDest(c.P1.Pt(), float64(*c.Bearing), float64(*c.Dist), nz)
 	case "along":
 		if c.Dist == nil {
 			return fmt.Errorf("harness: malformed along case")
 		}
-		return checkAlong(orb.LineString(gen.OrbPts(c.Line)), float64(*c.Dist))
+		return checkAlong(orb.LineString(gen.OrbPts(c.Line)), float64(*c.Dist), nz)
 	case "box":
 		if c.Box == nil {
 			return fmt.Errorf("harness: malformed box case")
@@ -74,22 +82,61 @@ func checkCase(c Case) error {
 				extra[e] = append(extra[e], float64(f))
 			}
 		}
-		return checkBox(c.Box.Bound(), extra, c.Rot, c.Rev, c.Closed, c.Layout)
+		return checkBox(c.Box.Bound(), extra, c.Rot, c.Rev, c.Closed, c.Layout, nz)
 	case "ring":
 		if len(c.Ring) < 3 {
 			return fmt.Errorf("harness: malformed ring case")
 		}
-		return checkRing(gen.OrbPts(c.Ring), c.Layout)
+		return checkRing(gen.OrbPts(c.Ring), c.Layout, nz)
+	case "long":
+		if c.P1 == nil || c.Step == nil || c.Band == nil || c.N < 2 {
+			return fmt.Errorf("harness: malformed long case")
+		}
+		return checkLong(c, nz)
 	case "geom":
 		if c.G == nil {
 			return fmt.Errorf("harness: malformed geom case")
 		}
-		return checkGeom(c.G.V, c.Layout)
+		return checkGeom(c.G.V, c.Layout, nz)
 	}
 	return fmt.Errorf("harness: unknown case kind %q", c.Kind)
 }
 
 // ---------------------------------------------------------------- generators
+
+// drawn is a generated case with its classification; emit() publishes the classification
+// (the draw functions are shared by the main properties and by TestPropConcurrent).
+type drawn struct {
+	c       Case
+	classes []string
+	nt      bool   // non-trivial by the package's rule
+	group   string // sample group
+}
+
+func (d *drawn) class(s string) { d.classes = append(d.classes, s) }
+
+func (d *drawn) emit() {
+	for _, s := range d.classes {
+		stats.Class(s)
+	}
+	if d.c.Noise != 0 {
+		stats.Class("noise calls interleaved")
+	}
+	if d.nt {
+		stats.NonTrivial(gen.JSON(d.c))
+		if stats.WantSample(d.group) {
+			stats.Sample(d.group, d.c)
+		}
+	}
+}
+
+// drawNoise: half of the cases interleave noise calls (seed of their deterministic sequence).
+func drawNoise(t *rapid.T) uint64 {
+	if rapid.Bool().Draw(t, "noise") {
+		return rapid.Uint64Range(1, math.MaxUint64).Draw(t, "noise seed")
+	}
+	return 0
+}
 
 func logUniform(t *rapid.T, lo, hi float64, label string) float64 {
 	return math.Pow(10, rapid.Float64Range(lo, hi).Draw(t, label))
@@ -220,34 +267,40 @@ func genPair(t *rapid.T) (orb.Point, orb.Point, string) {
 
 func straddles(p1, p2 orb.Point) bool { return math.Abs(p1[0]-p2[0]) > 180 }
 
+func drawPair(rt *rapid.T) *drawn {
+	d := &drawn{}
+	p1, p2, class := genPair(rt)
+	c := Case{Kind: "pair", P1: pp(p1), P2: pp(p2)}
+	d.class("pair:" + class)
+	m := modelDist(p1, p2)
+	if straddles(p1, p2) {
+		d.class("pair*:across the antimeridian")
+	}
+	if m < 10000 && math.Abs(p1[1]) <= 80 && math.Abs(p2[1]) <= 80 {
+		d.class("pair*:under 10 km below lat 80 (equirectangular compared)")
+		if straddles(p1, p2) {
+			d.class("pair*:under 10 km across the antimeridian")
+		}
+	}
+	if m > rad(midMaxSepDeg)*R {
+		d.class("pair*:beyond 179.9 deg (midpoint not checked)")
+	}
+	if straddles(p1, p2) || class == "antipodal" || m > 1e6 {
+		d.nt, d.group = true, "pair:"+class
+	}
+	c.Noise = drawNoise(rt)
+	d.c = c
+	return d
+}
+
 func TestPropPair(t *testing.T) {
 	stats.Assume("point pairs have longitude in [-180,180] and latitude in [-89,89]; great-circle distance means arc length on the sphere of radius orb.EarthRadius")
 	stats.Assume("Midpoint is checked for pairs separated by at most 179.9 degrees (the midpoint of antipodes is not unique and the formula is ill-conditioned within ~40 m of the antipode)")
 	stats.Assume("equirectangular vs haversine: |diff| <= 1e-5*haversine + 1e-6 m for pairs with haversine < 10 km and both |lat| <= 80")
 	stats.Check(t, 300000, 8000000, func(rt *rapid.T) {
-		p1, p2, class := genPair(rt)
-		c := Case{Kind: "pair", P1: pp(p1), P2: pp(p2)}
-		stats.Class("pair:" + class)
-		m := modelDist(p1, p2)
-		if straddles(p1, p2) {
-			stats.Class("pair*:across the antimeridian")
-		}
-		if m < 10000 && math.Abs(p1[1]) <= 80 && math.Abs(p2[1]) <= 80 {
-			stats.Class("pair*:under 10 km below lat 80 (equirectangular compared)")
-			if straddles(p1, p2) {
-				stats.Class("pair*:under 10 km across the antimeridian")
-			}
-		}
-		if m > rad(midMaxSepDeg)*R {
-			stats.Class("pair*:beyond 179.9 deg (midpoint not checked)")
-		}
-		if straddles(p1, p2) || class == "antipodal" || m > 1e6 {
-			stats.NonTrivial(gen.JSON(c))
-			if stats.WantSample("pair:" + class) {
-				stats.Sample("pair:"+class, c)
-			}
-		}
-		stats.Try(rt, "TestPropPair", c, func() error { return checkCase(c) })
+		d := drawPair(rt)
+		d.emit()
+		stats.Try(rt, "TestPropPair", d.c, func() error { return checkCase(d.c) })
 	})
 }
 
@@ -275,37 +328,43 @@ func genBearing(t *rapid.T) float64 {
 	return rapid.Float64Range(-180, 180).Draw(t, "b")
 }
 
+func drawDest(rt *rapid.T) *drawn {
+	d := &drawn{}
+	p := genPoint(rt, "p")
+	b, dist := genBearing(rt), genDist(rt)
+	c := Case{Kind: "dest", P1: pp(p), Bearing: fp(b), Dist: fp(dist)}
+	md := vecPoint(modelDest(p, b, dist))
+	crosses := math.Abs(md[0]-p[0]) > 180
+	switch {
+	case dist == 0:
+		d.class("dest:zero distance")
+	case dist < 1:
+		d.class("dest:sub-metre")
+	case dist < 1e6:
+		d.class("dest:1 m .. 1000 km")
+	default:
+		d.class("dest:over 1000 km")
+	}
+	if crosses {
+		d.class("dest*:crosses the antimeridian")
+	}
+	if math.Abs(md[1]) > 89.99 {
+		d.class("dest*:lands within 0.01 deg of a pole (1 m tolerance)")
+	}
+	if dist > 1e6 || crosses {
+		d.nt, d.group = true, "dest"
+	}
+	c.Noise = drawNoise(rt)
+	d.c = c
+	return d
+}
+
 func TestPropDestination(t *testing.T) {
 	stats.Assume("bearings in [-180,180] degrees clockwise from north, distances in [0, 5000 km]; agreement within 1e-4 m (1 m when the destination is within 0.01 deg of a pole); Bearing(start, destination) must give back the bearing within twice that tolerance measured as sideways offset at the destination, for distances >= 1 m")
 	stats.Check(t, 150000, 5000000, func(rt *rapid.T) {
-		p := genPoint(rt, "p")
-		b, d := genBearing(rt), genDist(rt)
-		c := Case{Kind: "dest", P1: pp(p), Bearing: fp(b), Dist: fp(d)}
-		md := vecPoint(modelDest(p, b, d))
-		crosses := math.Abs(md[0]-p[0]) > 180
-		switch {
-		case d == 0:
-			stats.Class("dest:zero distance")
-		case d < 1:
-			stats.Class("dest:sub-metre")
-		case d < 1e6:
-			stats.Class("dest:1 m .. 1000 km")
-		default:
-			stats.Class("dest:over 1000 km")
-		}
-		if crosses {
-			stats.Class("dest*:crosses the antimeridian")
-		}
-		if math.Abs(md[1]) > 89.99 {
-			stats.Class("dest*:lands within 0.01 deg of a pole (1 m tolerance)")
-		}
-		if d > 1e6 || crosses {
-			stats.NonTrivial(gen.JSON(c))
-			if stats.WantSample("dest") {
-				stats.Sample("dest", c)
-			}
-		}
-		stats.Try(rt, "TestPropDestination", c, func() error { return checkCase(c) })
+		d := drawDest(rt)
+		d.emit()
+		stats.Try(rt, "TestPropDestination", d.c, func() error { return checkCase(d.c) })
 	})
 }
 
@@ -344,45 +403,51 @@ func genLineAlong(t *rapid.T) (orb.LineString, string) {
 	return ls, class
 }
 
+func drawAlong(rt *rapid.T) *drawn {
+	d := &drawn{}
+	ls, class := genLineAlong(rt)
+	total := 0.0
+	cum := []float64{0}
+	cross := false
+	for i := 1; i < len(ls); i++ {
+		total += modelDist(ls[i-1], ls[i])
+		cum = append(cum, total)
+		if straddles(ls[i-1], ls[i]) {
+			cross = true
+		}
+	}
+	var dist float64
+	switch rapid.IntRange(0, 7).Draw(rt, "dk") {
+	case 0:
+		dist = 0
+	case 1:
+		dist = total*rapid.Float64Range(1, 1.5).Draw(rt, "over") + 1
+	case 2:
+		dist = cum[rapid.IntRange(0, len(cum)-1).Draw(rt, "vertex")]
+	case 3:
+		dist = total
+	default:
+		dist = total * rapid.Float64Range(0, 1).Draw(rt, "f")
+	}
+	c := Case{Kind: "along", Line: gen.Pts(ls), Dist: fp(dist)}
+	d.class("along:" + class)
+	if dist > total {
+		d.class("along*:request exceeds the line")
+	}
+	if len(ls) >= 3 && (cross || total > 1e6) && dist > 0 && dist < total {
+		d.nt, d.group = true, "along"
+	}
+	c.Noise = drawNoise(rt)
+	d.c = c
+	return d
+}
+
 func TestPropAlongLine(t *testing.T) {
 	stats.Assume("PointAtDistanceAlongLine: non-empty lines (an empty line is a documented panic), segments up to ~4600 km, requested distance >= 0; position within 1e-4 m of the great-circle model, the last vertex bit-for-bit when the request exceeds the length by more than 1 mm")
 	stats.Check(t, 80000, 2000000, func(rt *rapid.T) {
-		ls, class := genLineAlong(rt)
-		total := 0.0
-		cum := []float64{0}
-		cross := false
-		for i := 1; i < len(ls); i++ {
-			total += modelDist(ls[i-1], ls[i])
-			cum = append(cum, total)
-			if straddles(ls[i-1], ls[i]) {
-				cross = true
-			}
-		}
-		var d float64
-		switch rapid.IntRange(0, 7).Draw(rt, "dk") {
-		case 0:
-			d = 0
-		case 1:
-			d = total*rapid.Float64Range(1, 1.5).Draw(rt, "over") + 1
-		case 2:
-			d = cum[rapid.IntRange(0, len(cum)-1).Draw(rt, "vertex")]
-		case 3:
-			d = total
-		default:
-			d = total * rapid.Float64Range(0, 1).Draw(rt, "f")
-		}
-		c := Case{Kind: "along", Line: gen.Pts(ls), Dist: fp(d)}
-		stats.Class("along:" + class)
-		if d > total {
-			stats.Class("along*:request exceeds the line")
-		}
-		if len(ls) >= 3 && (cross || total > 1e6) && d > 0 && d < total {
-			stats.NonTrivial(gen.JSON(c))
-			if stats.WantSample("along") {
-				stats.Sample("along", c)
-			}
-		}
-		stats.Try(rt, "TestPropAlongLine", c, func() error { return checkCase(c) })
+		d := drawAlong(rt)
+		d.emit()
+		stats.Try(rt, "TestPropAlongLine", d.c, func() error { return checkCase(d.c) })
 	})
 }
 
@@ -433,42 +498,48 @@ func genBox(t *rapid.T) (orb.Bound, string) {
 	return b, class
 }
 
+func drawBox(rt *rapid.T) *drawn {
+	d := &drawn{}
+	b, class := genBox(rt)
+	c := Case{Kind: "box", Box: func() *gen.B { x := gen.FromBound(b); return &x }()}
+	nExtra := 0
+	if rapid.Bool().Draw(rt, "subdivide") {
+		c.Extra = make([][]gen.F, 4)
+		for e := 0; e < 4; e++ {
+			k := rapid.IntRange(0, 2).Draw(rt, "k")
+			fr := make([]float64, k)
+			for i := range fr {
+				fr[i] = rapid.Float64Range(0.01, 0.99).Draw(rt, "f")
+			}
+			sort.Float64s(fr)
+			c.Extra[e] = []gen.F{}
+			for _, f := range fr {
+				c.Extra[e] = append(c.Extra[e], gen.F(f))
+			}
+			nExtra += k
+		}
+	}
+	c.Rot = rapid.IntRange(0, 3+nExtra).Draw(rt, "rot")
+	c.Rev = rapid.Bool().Draw(rt, "rev")
+	c.Closed = rapid.Bool().Draw(rt, "closed")
+	c.Layout = rapid.SampledFrom(layouts).Draw(rt, "layout")
+	d.class("box:" + class)
+	d.class("layout(box):" + c.Layout)
+	if nExtra > 0 {
+		d.class("box*:extra vertices on edges")
+		d.nt, d.group = true, "box"
+	}
+	c.Noise = drawNoise(rt)
+	d.c = c
+	return d
+}
+
 func TestPropBox(t *testing.T) {
 	stats.Assume("lon/lat boxes 0.001..3 degrees wide and high, inside lon [-180,180] (not crossing the antimeridian) and lat [-89,89]; the box ring is also spelled with up to 8 extra vertices on its edges (same lon/lat region, hence same closed form), in any rotation, reversed, closed or not; SignedArea is positive for the counter-clockwise spelling as its doc comment says; relative tolerance 1e-6")
 	stats.Check(t, 80000, 2000000, func(rt *rapid.T) {
-		b, class := genBox(rt)
-		c := Case{Kind: "box", Box: func() *gen.B { x := gen.FromBound(b); return &x }()}
-		nExtra := 0
-		if rapid.Bool().Draw(rt, "subdivide") {
-			c.Extra = make([][]gen.F, 4)
-			for e := 0; e < 4; e++ {
-				k := rapid.IntRange(0, 2).Draw(rt, "k")
-				fr := make([]float64, k)
-				for i := range fr {
-					fr[i] = rapid.Float64Range(0.01, 0.99).Draw(rt, "f")
-				}
-				sort.Float64s(fr)
-				c.Extra[e] = []gen.F{}
-				for _, f := range fr {
-					c.Extra[e] = append(c.Extra[e], gen.F(f))
-				}
-				nExtra += k
-			}
-		}
-		c.Rot = rapid.IntRange(0, 3+nExtra).Draw(rt, "rot")
-		c.Rev = rapid.Bool().Draw(rt, "rev")
-		c.Closed = rapid.Bool().Draw(rt, "closed")
-		c.Layout = rapid.SampledFrom(layouts).Draw(rt, "layout")
-		stats.Class("box:" + class)
-		stats.Class("layout(box):" + c.Layout)
-		if nExtra > 0 {
-			stats.Class("box*:extra vertices on edges")
-			stats.NonTrivial(gen.JSON(c)) // ring with >= 5 vertices
-			if stats.WantSample("box") {
-				stats.Sample("box", c)
-			}
-		}
-		stats.Try(rt, "TestPropBox", c, func() error { return checkCase(c) })
+		d := drawBox(rt)
+		d.emit()
+		stats.Try(rt, "TestPropBox", d.c, func() error { return checkCase(d.c) })
 	})
 }
 
@@ -511,24 +582,30 @@ func genCentre(t *rapid.T) orb.Point {
 	return orb.Point{rapid.Float64Range(-175, 175).Draw(t, "clon"), rapid.Float64Range(-84, 84).Draw(t, "clat")}
 }
 
+func drawRing(rt *rapid.T) *drawn {
+	d := &drawn{}
+	class := rapid.SampledFrom([]string{"star", "star", "lattice", "arbitrary", "repeats"}).Draw(rt, "rclass")
+	n := rapid.IntRange(3, 12).Draw(rt, "n")
+	scale := logUniform(rt, -3, 0.5, "scale")
+	verts := genRingVerts(rt, genCentre(rt), scale, n, class)
+	c := Case{Kind: "ring", Ring: gen.Pts(verts), Layout: rapid.SampledFrom(layouts).Draw(rt, "layout")}
+	d.class("ring:" + class)
+	d.class("layout(ring):" + c.Layout)
+	d.class(fmt.Sprintf("ring*:%02d vertices", n))
+	if n >= 5 {
+		d.nt, d.group = true, "ring:"+class
+	}
+	c.Noise = drawNoise(rt)
+	d.c = c
+	return d
+}
+
 func TestPropRing(t *testing.T) {
 	stats.Assume("rings of 3..12 vertices within a few degrees, not crossing the antimeridian, star-shaped, lattice, arbitrary (self-intersecting) or with repeated vertices; invariance tolerance 1e-9 * R^2 * sum|dLon| (radians)")
 	stats.Check(t, 80000, 2000000, func(rt *rapid.T) {
-		class := rapid.SampledFrom([]string{"star", "star", "lattice", "arbitrary", "repeats"}).Draw(rt, "rclass")
-		n := rapid.IntRange(3, 12).Draw(rt, "n")
-		scale := logUniform(rt, -3, 0.5, "scale")
-		verts := genRingVerts(rt, genCentre(rt), scale, n, class)
-		c := Case{Kind: "ring", Ring: gen.Pts(verts), Layout: rapid.SampledFrom(layouts).Draw(rt, "layout")}
-		stats.Class("ring:" + class)
-		stats.Class("layout(ring):" + c.Layout)
-		stats.Class(fmt.Sprintf("ring*:%02d vertices", n))
-		if n >= 5 {
-			stats.NonTrivial(gen.JSON(c))
-			if stats.WantSample("ring:" + class) {
-				stats.Sample("ring:"+class, c)
-			}
-		}
-		stats.Try(rt, "TestPropRing", c, func() error { return checkCase(c) })
+		d := drawRing(rt)
+		d.emit()
+		stats.Try(rt, "TestPropRing", d.c, func() error { return checkCase(d.c) })
 	})
 }
 
@@ -684,30 +761,36 @@ func countRings(g orb.Geometry, needUnclosed bool) int {
 	return n
 }
 
+func drawCompose(rt *rapid.T) *drawn {
+	d := &drawn{}
+	scale := logUniform(rt, -2, 0.3, "scale")
+	c0 := orb.Point{rapid.Float64Range(-160, 160).Draw(rt, "clon"), rapid.Float64Range(-80, 80).Draw(rt, "clat")}
+	g := genMember(rt, c0, scale, 2)
+	top := gen.KindOf(g)
+	c := Case{Kind: "geom", G: &gen.G{V: g}, Layout: rapid.SampledFrom(layouts).Draw(rt, "layout")}
+	d.class("geom:" + top)
+	d.class("layout(geom):" + c.Layout)
+	if c.Layout != "plain" && countRings(g, true) >= 2 {
+		d.class("geom*:>= 2 rings with an unclosed one, shared buffer or spare capacity")
+	}
+	if p, ok := g.(orb.Polygon); ok && len(p) > 1 {
+		d.class("geom*:polygon with holes")
+	}
+	if maxRingLen(g) >= 5 {
+		d.nt, d.group = true, "geom:"+top
+	}
+	c.Noise = drawNoise(rt)
+	d.c = c
+	return d
+}
+
 func TestPropCompose(t *testing.T) {
 	stats.Assume("polygons with 0..3 holes (holes of either orientation, closed or unclosed rings, empty rings and empty polygons included), multi-polygons, collections nested up to depth 2 with non-areal members and bounds; collection members are never nil; area tolerance as for rings (1e-6 relative for bound members), length tolerance 1e-12 relative")
 	stats.Assume("the measures only read their argument: every measured box ring, ring spelling and polygon/multi/collection is laid out as windows of one shared buffer, with spare capacity, or plainly; the whole backing arrays are compared bit for bit after each call; expected values come from an independent deep copy")
 	stats.Check(t, 80000, 2000000, func(rt *rapid.T) {
-		scale := logUniform(rt, -2, 0.3, "scale")
-		c0 := orb.Point{rapid.Float64Range(-160, 160).Draw(rt, "clon"), rapid.Float64Range(-80, 80).Draw(rt, "clat")}
-		g := genMember(rt, c0, scale, 2)
-		top := gen.KindOf(g)
-		c := Case{Kind: "geom", G: &gen.G{V: g}, Layout: rapid.SampledFrom(layouts).Draw(rt, "layout")}
-		stats.Class("geom:" + top)
-		stats.Class("layout(geom):" + c.Layout)
-		if c.Layout != "plain" && countRings(g, true) >= 2 {
-			stats.Class("geom*:>= 2 rings with an unclosed one, shared buffer or spare capacity")
-		}
-		if p, ok := g.(orb.Polygon); ok && len(p) > 1 {
-			stats.Class("geom*:polygon with holes")
-		}
-		if maxRingLen(g) >= 5 {
-			stats.NonTrivial(gen.JSON(c))
-			if stats.WantSample("geom:" + top) {
-				stats.Sample("geom:"+top, c)
-			}
-		}
-		stats.Try(rt, "TestPropCompose", c, func() error { return checkCase(c) })
+		d := drawCompose(rt)
+		d.emit()
+		stats.Try(rt, "TestPropCompose", d.c, func() error { return checkCase(d.c) })
 	})
 }
 
@@ -785,9 +868,26 @@ func TestEnumRingLattice(t *testing.T) {
 }
 
 func TestReplay(t *testing.T) {
-	_, raw, ok := stats.Replaying()
+	name, raw, ok := stats.Replaying()
 	if !ok {
 		t.Skip("no replay file")
+	}
+	if name == "TestPropConcurrent" {
+		var cs []Case
+		if err := json.Unmarshal(raw, &cs); err != nil {
+			t.Fatal(err)
+		}
+		for i := range cs { // each member must pass alone, otherwise it is not a concurrency finding
+			if err := stats.Guard(func() error { return checkCase(cs[i]) }); err != nil {
+				t.Fatalf("member %d of the replayed group fails on its own: %v", i, err)
+			}
+		}
+		for k := 0; k < 20; k++ {
+			if err := stats.ParallelErr(len(cs), 200, func(i int) error { return checkCase(cs[i]) }); err != nil {
+				t.Fatalf("replayed concurrent group still fails: %v", err)
+			}
+		}
+		return
 	}
 	var c Case
 	if err := json.Unmarshal(raw, &c); err != nil {
